@@ -477,7 +477,7 @@ def check_sim_b(prop, tier, seed, level_rule):
 
 
 RULES = {
-    "C16": "one run = one (VERIF_SEED, run index): catalogue and instance, 6-11 queries (corpus of about 130 shapes incl. joins of every kind, USING/NATURAL, CTEs read once or twice, derived tables, set operations, DISTINCT, HAVING, CASE keys, ORDER BY/LIMIT/OFFSET, quoted identifiers, casts, scalar functions, predicates over compound operands, awkward literals, operator precedence, random(), CURRENT_TIMESTAMP / CURRENT_DATE / CURRENT_TIME) plus seeded aggregation queries, 1-4 caller threads with 3-12 operations each (parse, render twice through the default and once through each of six dialect translators, re-parse, DP / privacy-unit rewriting as background load, counter burns, unnamed builds, reset(), cold threads, caller abandonment), one shuttle schedule (random or PCT, seeded) and one hash seed. A quiescent single-threaded pass right after reset() gives the reference (relation, text, rendered SQL, schema) and decides the schedule-independent fixpoint sentence (re-parse succeeds, same schema, same multiset of operators / functions / literals / whole expression trees modulo what re-parsing provably adds, same rows on one seeded instance of the simulated engine; schema and structure also for the relation the DP compiler returns for the generated query); every Parse/Render/Reparse of the concurrent history is compared with it. A second family of runs replays histories single-threaded under other hash seeds and compares logs. Non-trivial = the history ran (every run). Distinct = distinct (thread count, scheduler, set of operation kinds, query-kind mix) tuples; distinct interleavings (hash of the global order of thread steps) are counted separately.",
+    "C16": "one run = one (VERIF_SEED, run index): catalogue and instance, 6-11 queries (corpus of about 175 shapes incl. joins of every kind, USING/NATURAL, CTEs read once or twice, derived tables, set operations, DISTINCT, HAVING, CASE keys, ORDER BY/LIMIT/OFFSET, quoted identifiers, casts, scalar functions, predicates over compound operands, awkward literals, operator precedence, random(), CURRENT_TIMESTAMP / CURRENT_DATE / CURRENT_TIME) plus seeded aggregation queries, 1-4 caller threads with 3-12 operations each (parse, render twice through the default and once through each of six dialect translators, re-parse, DP / privacy-unit rewriting as background load, counter burns, unnamed builds, reset(), cold threads, caller abandonment), one shuttle schedule (random or PCT, seeded) and one hash seed. A quiescent single-threaded pass right after reset() gives the reference (relation, text, rendered SQL, schema) and decides the schedule-independent fixpoint sentence (re-parse succeeds, same schema, same multiset of operators / functions / literals / whole expression trees modulo what re-parsing provably adds, same rows on one seeded instance of the simulated engine; schema and structure also for the relation the DP compiler returns for the generated query); every Parse/Render/Reparse of the concurrent history is compared with it. A second family of runs replays histories single-threaded under other hash seeds and compares logs. Non-trivial = the history ran (every run). Distinct = distinct (thread count, scheduler, set of operation kinds, query-kind mix) tuples; distinct interleavings (hash of the global order of thread steps) are counted separately.",
     "C02": "one run = one (VERIF_SEED, run index): scenario mixing protected, public and synthetic tables, aggregation queries and plain projections (which must be refused or redirected). (a) the returned relation is executed under 15 forced schedules of the engine's noise draws on D and under 3 of them on D minus one privacy unit (up to 3 units); every output column that depends on the removed rows must depend on the noise schedule. (b) on the same compile, every derivation the public rule pipeline returns with an acceptable root label is walked: no Public/Published/Synthetic-labelled node may reach a protected table (not redirected to its twin) without crossing a DifferentiallyPrivate-labelled aggregation. Non-trivial = the compile ran to a verdict (accepted or refused). Distinct = distinct (privacy-unit kind, FROM shape, key shape, aggregate set, synthetic/plain, outcome class: data-dependent / noise-only / constant / refused).",
     "C04": "one run = one (VERIF_SEED, run index): grouped query with at least one key column that has no publicly declared value set, instance with singleton keys, units alone in more than Cu groups, one unit holding a key in many rows. The rewritten query is executed under forced schedules of the engine's random source: threshold noise zero (released => more than tau_required distinct holding units, counted by the harness's own ownership tables), threshold noise placing the effective threshold at 1.5 / 2.5 / 4.5, and - when some unit is the only holder of more than Cu keys - six capping-draw schedules (2 seeded, quantised ties, constant, increasing, decreasing) with every candidate key forced out (at most Cu of a lone unit's keys may appear); tau and sigma literals are compared with the values required by the reserved share. Non-trivial = compile accepted and key release present (or a surely private key released without it). Distinct = distinct (privacy-unit kind, key shape, cap exercised or idle, singleton keys present, something released, Cu class).",
     "C03": "one run = one (VERIF_SEED, run index): generated scenario as for C01. The applied mechanisms are read from the rewritten IR (sigma literal per noised column, clip constant traced through the scale-factor map; tau and sigma of the key release) and cross-checked through the engine seam (every Gaussian draw forced to +-c*sigma must move each un-clamped cell by exactly that); they are then matched injectively against the entries of the returned DpEvent and budgeted with the classical calibration at the best delta split; below every key-release threshold the query must cap a unit's contributions at the Cu the recorded (epsilon, delta) assumes. Non-trivial = compile accepted and at least one randomised mechanism in the rewriting. Distinct = distinct (privacy-unit kind, FROM shape, key shape, aggregate set, number of Gaussian / threshold mechanisms, epsilon above or below 1, history class).",
